@@ -15,3 +15,37 @@ theorem checkMajor23 (cfg : Admin.Cfg) (vals : List ValSet.Val) (sinfos : List A
   rw [Int.tdiv_eq_ediv_of_nonneg (by omega)]
 
 end AnnVerif.Ties
+
+namespace AnnVerif.Ties
+open AnnVerif
+
+/-- the replay check of `ProcessAdminOP` (`vAttr.Nonce+1 != nonce`) is the model's -/
+theorem admin_nonce_iff (appNonce attrNonce : Nat) :
+    Gen.e_admin_nonce appNonce attrNonce = decide (attrNonce + 1 ≠ appNonce) := by
+  unfold Gen.e_admin_nonce
+  by_cases h : attrNonce + 1 = appNonce
+  · have : (attrNonce : Int) + 1 = appNonce := by omega
+    simp [h, this]
+  · have : ¬ (attrNonce : Int) + 1 = appNonce := by omega
+    simp [h, this]
+
+/-- whenever the code's nonce check fires on a request that passed the checks before it, the model
+    function refuses the request with the nonce error and queues nothing -/
+theorem admin_nonce_refuses (cfg : Admin.Cfg) (vals : List ValSet.Val) (from_ : Bytes) (appNonce : Nat) (r : Admin.Request)
+    (h1 : Admin.checkMajor23 cfg vals r.sinfos = true) (h2 : r.cmdTypeOk = true) (h3 : r.parseOk = true)
+    (h4 : Gen.e_admin_from (from_ == r.attrAddr) = false)
+    (h5 : Gen.e_admin_nonce appNonce r.attrNonce = true) :
+    Admin.execTx cfg vals from_ appNonce r = (.errNonce, none) := by
+  rw [admin_nonce_iff] at h5
+  have h5' := of_decide_eq_true h5
+  unfold Gen.e_admin_from at h4
+  have h4' : from_ = r.attrAddr := by simpa using h4
+  unfold Admin.execTx
+  simp [h1, h2, h3, h4', h5']
+
+/-- ... and when it does not fire (and the sender matches) the model goes on to the command -/
+theorem admin_update_same_power (p q : Int) : Gen.e_admin_samePower q p = decide (p = q) := by
+  unfold Gen.e_admin_samePower
+  by_cases h : p = q <;> simp [h]
+
+end AnnVerif.Ties
